@@ -6,8 +6,9 @@
      - an old keyword argument whose field now holds its default is deleted - category update when its value is unchanged,
        fix otherwise - unless the user controls it (Is(...), ...), then it stays;
      - the fields of the new value are walked in THEIR order, defaults skipped: fields the old call has no keyword for are
-       collected and inserted (category fix) at `insert_pos`, which starts at 0 and becomes 1 + (index of the keyword among
-       the old KEYWORDS) after each matched one, and is used as an index into (positional ++ keyword) arguments;
+       collected and inserted (category fix) at `insert_pos`, an index into (positional ++ keyword) arguments of the OLD call:
+       it starts behind the positional arguments and moves behind each matched keyword (so a group of new keywords
+       lands directly behind the last matched keyword before it, in front of keywords that are deleted in the same run);
        matched keywords are assigned in place by the adapter of their value (Model/TreeAssign.v: nested lists / tuples).
    The result is the list of arguments in text order.
    Modelled scope: every keyword of the old call names a field shown by repr; no star-arguments; adapters without
@@ -36,15 +37,16 @@ Fixpoint kw_index (k : Z) (kws : list (Z * tree)) : option nat :=
 Definition flush (pending : list (Z * val)) (pos : nat) : list (nat * list (Z * val)) :=
   match pending with [] => [] | _ => [(pos, rev pending)] end.
 
-(* walking the fields of the new value: groups of inserted keywords with their positions; `pending` in reverse *)
-Fixpoint cinserts (kws : list (Z * tree)) (fs : list field) (pending : list (Z * val)) (pos : nat) : list (nat * list (Z * val)) :=
+(* walking the fields of the new value: groups of inserted keywords with their positions; `pending` in reverse; p = number of
+   positional arguments of the old call (CallArg.arg_pos counts them too) *)
+Fixpoint cinserts (p : nat) (kws : list (Z * tree)) (fs : list field) (pending : list (Z * val)) (pos : nat) : list (nat * list (Z * val)) :=
   match fs with
   | [] => flush pending pos
   | f :: r =>
-      if fd_default f then cinserts kws r pending pos
+      if fd_default f then cinserts p kws r pending pos
       else match kw_index (fd_name f) kws with
-           | None => cinserts kws r ((fd_name f, fd_val f) :: pending) pos
-           | Some i => flush pending pos ++ cinserts kws r [] (S i)
+           | None => cinserts p kws r ((fd_name f, fd_val f) :: pending) pos
+           | Some i => flush pending pos ++ cinserts p kws r [] (p + S i)
            end
   end.
 
@@ -80,4 +82,4 @@ Fixpoint cplace (F : flags) (ins : list (nat * list (Z * val))) (fs : list field
 
 Definition elements (c : call) : list (tree + Z * tree) := map inl (c_pos c) ++ map inr (c_kws c).
 Definition call_result (F : flags) (c : call) (fs : list field) : list citem :=
-  cplace F (cinserts (c_kws c) fs [] 0) fs 0 (elements c).
+  cplace F (cinserts (length (c_pos c)) (c_kws c) fs [] (length (c_pos c))) fs 0 (elements c).
